@@ -415,7 +415,7 @@ type Contracts struct {
 const anyLoop = -2 // an invariant of every loop of the function (keeps clauses)
 
 var clauseKw = map[string]bool{"excluding": true, "uses": true, "law": true, "defines": true, "assumes": true, "requires": true, "ensures": true, "assigns": true, "loop": true, "decreases": true, "property": true,
-	"call": true, "keeps": true, "pure": true, "inline": true, "appendview": true, "chained": true, "trusted": true, "strings": true, "noinline": true, "params": true}
+	"call": true, "ret": true, "keeps": true, "pure": true, "inline": true, "appendview": true, "chained": true, "trusted": true, "strings": true, "noinline": true, "params": true}
 
 func parseProps(s *string) []string {
 	// leading "[C01,C02]" tag
@@ -641,6 +641,28 @@ func loadContracts(path string) (*Contracts, error) {
 				return nil, fail(err)
 			}
 			cur.Clauses = append(cur.Clauses, &Clause{Kind: "callsite", Loop: n, Callee: fs[0], Src: src, E: e, Props: props, Name: name})
+		case "ret":
+			// ret <k> ensures [props] name @@ E: a postcondition of the k-th return statement (source order) only
+			fs := strings.Fields(rest)
+			if len(fs) < 3 || fs[1] != "ensures" {
+				return nil, fail(fmt.Errorf("bad ret clause (ret <k> ensures E)"))
+			}
+			n, err := strconv.Atoi(fs[0])
+			if err != nil {
+				return nil, fail(err)
+			}
+			src := strings.TrimSpace(rest[strings.Index(rest, " ensures ")+len(" ensures "):])
+			props := parseProps(&src)
+			name := ""
+			if i := strings.Index(src, "@@"); i >= 0 {
+				name = strings.TrimSpace(src[:i])
+				src = strings.TrimSpace(src[i+2:])
+			}
+			e, err := parseExpr(src)
+			if err != nil {
+				return nil, fail(err)
+			}
+			cur.Clauses = append(cur.Clauses, &Clause{Kind: "retsite", Loop: n, Src: src, E: e, Props: props, Name: name})
 		case "keeps":
 			// keeps [props] g1, g2: the ghost variables have their entry value at every return and at every loop head
 			props := parseProps(&rest)
